@@ -97,7 +97,8 @@ def summary():
             t = res.get("thorough", {})
             rows.append("| %s/%s | %s | %s | %s | %s |" % (
                 pid, x, " ".join(str(meta.get("summary", "")).split())[:150], ", ".join(meta.get("files", []))[:60],
-                ("detected (%d viol., %.0f s)" % (q.get("violations", 0), q.get("wall", 0))) if q.get("detected") else ("missed" if q else "-"),
+                ("detected (%d viol., %.0f s)" % (q.get("violations", 0), q.get("wall", 0))) if q.get("detected") else
+                (("not reported - reclassified, see note.txt" if os.path.exists(os.path.join(d, x, "note.txt")) else "missed") if q else "-"),
                 ("detected" if t.get("detected") else "missed") if t else "-"))
     with open(os.path.join(root, "SUMMARY.md"), "w") as f:
         f.write("# Seeded changes and what the owning check says\n\n"
